@@ -87,4 +87,6 @@ class SimpleMatcher(BaseMatcher):
         else:
             result = self.obs_noise_dist.logpdf(dist) + self.obs_noise_logint
         # print("logprob_obs: {} -> {:.5f} = {:.5f}".format(dist, result, math.exp(result)))
+        # Rounding can give a value one ulp above log(1.0) for a zero distance
+        result = min(result, 0.0)
         return result, {}
